@@ -505,8 +505,8 @@ Proof.
   unfold for_in in Hrun.
   set (P := fun (i : N) (o : bitlist) => o = (out ++ N_to_bits 2 (N.of_nat skip)) ++ enc_order cl (seg skip (N.to_nat i))).
   assert (HP : P (N.of_nat skip + N.of_nat (N.to_nat (ctsN - N.of_nat skip))) out').
-  { match type of Hrun with for_range _ _ ?b _ = _ =>
-      apply (for_range_inv_done P b (N.to_nat (ctsN - N.of_nat skip)) (N.of_nat skip) _ out'); [| |exact Hrun] end.
+  { match type of Hrun with for_range _ _ ?b ?s0 = _ =>
+      apply (for_range_inv_done P b (N.to_nat (ctsN - N.of_nat skip)) (N.of_nat skip) s0 out'); [| |exact Hrun] end.
     - unfold P, seg. rewrite Nat2N.id, Nat.sub_diag. cbn [firstn enc_order flat_map]. rewrite app_nil_r. reflexivity.
     - intros j o o1 Hj1 Hj2 HPj Hbody. unfold P in *.
       rewrite <- (N2Nat.id j) in Hbody. rewrite get_order in Hbody by lia. cbn [bind] in Hbody.
@@ -519,4 +519,513 @@ Proof.
   - f_equal. lia.
   - replace (N.to_nat (N.of_nat skip + N.of_nat (N.to_nat (ctsN - N.of_nat skip)))) with skip by lia.
     unfold seg. replace (skip - skip)%nat with 0%nat by lia. replace (N.to_nat ctsN - skip)%nat with 0%nat by lia. reflexivity.
+Qed.
+
+(* ------------------------------------------------------------------ writing the symbol sequence *)
+Lemma write_bits_done n v out o : write_bits n v out = Done o -> o = out ++ N_to_bits (N.to_nat n) v /\ v < 2 ^ n.
+Proof.
+  unfold write_bits. destruct (N.eqb_spec (N.shiftr v n) 0) as [E|E]; cbn [negb]; [|discriminate].
+  destruct (56 <? n); [discriminate|]. intros H. inversion H. rewrite lsb_bits_eq. split; [reflexivity|].
+  rewrite N.shiftr_div_pow2 in E. destruct (N.lt_ge_cases v (2 ^ n)) as [|Hge]; [assumption|].
+  assert (1 <= v / 2 ^ n); [|lia]. apply N.div_le_lower_bound; [apply N.pow_nonzero; discriminate|lia].
+Qed.
+
+Definition sym_bits (cl' sym : list N) (s : N) : bits :=
+  N_to_bits (N.to_nat (nth (N.to_nat s) cl' 0)) (nth (N.to_nat s) sym 0).
+
+Lemma store_seq cl' sym : forall t out out',
+  store_huffman_tree_to_bit_mask t cl' sym out = Done out' ->
+  out' = out ++ enc_seq (sym_bits cl' sym) t.
+Proof.
+  induction t as [|[s e] t IH]; intros out out' H.
+  - cbn in H. inversion H. cbn. rewrite app_nil_r. reflexivity.
+  - cbn [store_huffman_tree_to_bit_mask] in H.
+    inv_bind H. rename a into nb. apply (getA_done cl' s nb 0) in E. destruct E as [_ ->].
+    inv_bind H. rename a into v. apply (getA_done sym s v 0) in E. destruct E as [_ ->].
+    inv_bind H. rename a into o1. apply write_bits_done in E. destruct E as [-> _].
+    inv_bind H. rename a into o2.
+    assert (Eo2 : o2 = (out ++ sym_bits cl' sym s) ++ extra_bits s e).
+    { unfold extra_bits. destruct (s =? 16).
+      - apply write_bits_done in E. destruct E as [-> _]. reflexivity.
+      - destruct (s =? 17).
+        + apply write_bits_done in E. destruct E as [-> _]. reflexivity.
+        + inversion E. rewrite app_nil_r. reflexivity. }
+    apply IH in H. rewrite H, Eo2. cbn [enc_seq flat_map fst snd]. rewrite <- !app_assoc. reflexivity.
+Qed.
+
+(* ------------------------------------------------------------------ facts about the fixed order *)
+Definition pos_of (p : nat) : nat :=
+  match find (fun k => ord k =? N.of_nat p) (seq 0 18) with Some k => k | None => 0%nat end.
+
+Lemma ord_pos p : (p < 18)%nat -> ord (pos_of p) = N.of_nat p /\ (pos_of p < 18)%nat.
+Proof.
+  intros H.
+  assert (E : forallb (fun p => (ord (pos_of p) =? N.of_nat p) && (pos_of p <? 18)%nat) (seq 0 18) = true) by (vm_compute; reflexivity).
+  rewrite forallb_forall in E. specialize (E p ltac:(apply in_seq; lia)).
+  apply andb_true_iff in E. destruct E as [E1 E2]. apply N.eqb_eq in E1. apply Nat.ltb_lt in E2. auto.
+Qed.
+
+Lemma pos_ord k : (k < 18)%nat -> pos_of (N.to_nat (ord k)) = k.
+Proof.
+  intros H.
+  assert (E : forallb (fun k => (pos_of (N.to_nat (ord k)) =? k)%nat) (seq 0 18) = true) by (vm_compute; reflexivity).
+  rewrite forallb_forall in E. apply Nat.eqb_eq. apply E. apply in_seq. lia.
+Qed.
+
+Lemma seg_map a b : (b <= 18)%nat -> seg a b = map ord (seq a (b - a)).
+Proof.
+  intros Hb. remember (b - a)%nat as m. revert a b Hb Heqm. induction m as [|m IH]; intros a b Hb Hm.
+  - unfold seg. rewrite <- Hm. reflexivity.
+  - assert (Ha : (a < 18)%nat) by lia.
+    unfold seg. rewrite <- Hm. cbn [seq map]. 
+    rewrite (skipn_nth rfc_cl_order a) by (change (length rfc_cl_order) with 18%nat; lia).
+    cbn [firstn]. f_equal. specialize (IH (S a) b Hb ltac:(lia)). unfold seg in IH.
+    replace (b - S a)%nat with m in IH by lia. exact IH.
+Qed.
+
+Lemma in_seg a b k : (b <= 18)%nat -> (k < 18)%nat -> In (ord k) (seg a b) <-> (a <= k < b)%nat.
+Proof.
+  intros Hb Hk. rewrite seg_map by exact Hb. rewrite in_map_iff. split.
+  - intros [k' [E Hin]]. apply in_seq in Hin. assert (Hk' : (k' < 18)%nat) by lia.
+    apply (f_equal (fun x => pos_of (N.to_nat x))) in E. rewrite !pos_ord in E by assumption. lia.
+  - intros H. exists k. split; [reflexivity|apply in_seq; lia].
+Qed.
+
+Lemma NoDup_map_in {A B} (f : A -> B) (l : list A) :
+  (forall x y, In x l -> In y l -> f x = f y -> x = y) -> NoDup l -> NoDup (map f l).
+Proof.
+  intros Hinj Hnd. induction Hnd as [|x l Hx Hnd IH]; [constructor|]. cbn [map]. constructor.
+  - intros Hin. apply in_map_iff in Hin. destruct Hin as [y [E Hy]].
+    assert (y = x) by (apply Hinj; [right; exact Hy|left; reflexivity|exact E]). subst y. contradiction.
+  - apply IH. intros a b Ha Hb. apply Hinj; right; assumption.
+Qed.
+
+Lemma seg_NoDup a b : (b <= 18)%nat -> NoDup (seg a b).
+Proof.
+  intros Hb. rewrite seg_map by exact Hb. apply NoDup_map_in; [|apply seq_NoDup].
+  intros x y Hx Hy E. apply in_seq in Hx, Hy.
+  apply (f_equal (fun x => pos_of (N.to_nat x))) in E. rewrite !pos_ord in E by lia. exact E.
+Qed.
+
+Lemma seg_app a b c : (a <= b)%nat -> (b <= c)%nat -> (c <= 18)%nat -> seg a c = seg a b ++ seg b c.
+Proof.
+  intros H1 H2 H3. rewrite !seg_map by lia. rewrite <- map_app. f_equal.
+  replace (c - a)%nat with ((b - a) + (c - b))%nat by lia. rewrite seq_app. f_equal. f_equal. lia.
+Qed.
+
+Lemma seg_full : seg 0 18 = rfc_cl_order.
+Proof. reflexivity. Qed.
+
+Lemma wsum32_app cl a b : wsum32 cl (a ++ b) = wsum32 cl a + wsum32 cl b.
+Proof. induction a as [|x a IH]; [reflexivity|]. cbn [app wsum32 fold_right]. fold (wsum32 cl (a ++ b)). fold (wsum32 cl a). rewrite IH. lia. Qed.
+
+Lemma nzcount_app cl a b : nzcount cl (a ++ b) = nzcount cl a + nzcount cl b.
+Proof. induction a as [|x a IH]; [reflexivity|]. cbn [app nzcount fold_right]. fold (nzcount cl (a ++ b)). fold (nzcount cl a). rewrite IH. lia. Qed.
+
+Lemma wsum32_zero cl l : (forall o, In o l -> nth (N.to_nat o) cl 0 = 0) -> wsum32 cl l = 0.
+Proof.
+  induction l as [|x l IH]; intros H; [reflexivity|]. cbn [wsum32 fold_right]. fold (wsum32 cl l).
+  rewrite IH by (intros o Ho; apply H; right; exact Ho). rewrite (H x) by (left; reflexivity). reflexivity.
+Qed.
+
+Lemma w32u_le16 v : w32u v <= 16.
+Proof.
+  unfold w32u. destruct (N.eqb_spec v 0); [lia|]. rewrite N.shiftr_div_pow2.
+  apply N.div_le_upper_bound; [apply N.pow_nonzero; discriminate|].
+  assert (2 ^ 1 <= 2 ^ v) by (apply N.pow_le_mono_r; lia). change (2 ^ 1) with 2 in *. lia.
+Qed.
+
+Lemma wsum32_le_nz cl l : wsum32 cl l <= 16 * nzcount cl l.
+Proof.
+  induction l as [|x l IH]; [cbn; lia|]. cbn [wsum32 nzcount fold_right]. fold (wsum32 cl l). fold (nzcount cl l).
+  pose proof (w32u_le16 (nth (N.to_nat x) cl 0)) as H. unfold w32u in *.
+  destruct (nth (N.to_nat x) cl 0 =? 0); lia.
+Qed.
+
+Lemma wsum32_01 cl l : (forall o, In o l -> nth (N.to_nat o) cl 0 = 0 \/ nth (N.to_nat o) cl 0 = 1) ->
+  wsum32 cl l = 16 * nzcount cl l.
+Proof.
+  induction l as [|x l IH]; intros H; [reflexivity|]. cbn [wsum32 nzcount fold_right]. fold (wsum32 cl l). fold (nzcount cl l).
+  rewrite IH by (intros o Ho; apply H; right; exact Ho).
+  destruct (H x ltac:(left; reflexivity)) as [E|E]; rewrite E;
+    [change (w32u 0) with 0; change (0 =? 0) with true|change (w32u 1) with 16; change (1 =? 0) with false]; cbv iota; lia.
+Qed.
+
+Lemma fill_nth cl : forall order acc p, NoDup order -> (forall o, In o order -> (N.to_nat o < length acc)%nat) ->
+  nth p (fill cl order acc) 0 =
+  if existsb (fun o => (N.to_nat o =? p)%nat) order && negb (nth p cl 0 =? 0) then nth p cl 0 else nth p acc 0.
+Proof.
+  induction order as [|o t IH]; intros acc p Hnd Hlt; [reflexivity|].
+  inversion Hnd as [|? ? Hnotin Hnd']; subst. cbn [fill existsb].
+  assert (Hlt' : forall acc' : list N, length acc' = length acc -> forall o', In o' t -> (N.to_nat o' < length acc')%nat).
+  { intros acc' E o' Ho'. rewrite E. apply Hlt. right. exact Ho'. }
+  destruct (Nat.eqb_spec (N.to_nat o) p) as [Ep|Np].
+  - assert (Ex : existsb (fun o0 => (N.to_nat o0 =? p)%nat) t = false).
+    { destruct (existsb _ t) eqn:E; [|reflexivity]. apply existsb_exists in E. destruct E as [o' [Ho' Eo']].
+      apply Nat.eqb_eq in Eo'. exfalso. apply Hnotin. replace o with o' by lia. exact Ho'. }
+    cbn [orb]. subst p. destruct (N.eqb_spec (nth (N.to_nat o) cl 0) 0) as [Ez|Ez]; cbn [negb andb].
+    + rewrite IH by (try assumption; apply Hlt'; reflexivity). rewrite Ex. reflexivity.
+    + rewrite IH by (try assumption; apply Hlt'; rewrite set_nth_length; reflexivity). rewrite Ex. cbn [andb].
+      rewrite set_nth_upd. apply upd_nth_same. apply Hlt. left. reflexivity.
+  - cbn [orb]. destruct (N.eqb_spec (nth (N.to_nat o) cl 0) 0) as [Ez|Ez].
+    + apply IH; [assumption|apply Hlt'; reflexivity].
+    + rewrite IH by (try assumption; apply Hlt'; rewrite set_nth_length; reflexivity).
+      rewrite set_nth_upd, upd_nth_other by exact Np. reflexivity.
+Qed.
+
+(* Kraft sum of the 18 code length code lengths in units of 1/32 *)
+Lemma sum18 (f g : N -> N) (cl : list N) : length cl = 18%nat -> (forall i, nth i cl 0 <= 5) ->
+  (forall c, c <= 5 -> g c = 1024 * f c) ->
+  fold_right (fun c acc => g c + acc) 0 cl = 1024 * fold_right (fun o acc => f (nth (N.to_nat o) cl 0) + acc) 0 rfc_cl_order.
+Proof.
+  intros Hl Hcl Hfg.
+  do 18 (destruct cl as [|? cl]; [discriminate|]). destruct cl; [|discriminate].
+  pose proof (Hcl 0%nat) as H0. pose proof (Hcl 1%nat) as H1. pose proof (Hcl 2%nat) as H2. pose proof (Hcl 3%nat) as H3.
+  pose proof (Hcl 4%nat) as H4. pose proof (Hcl 5%nat) as H5. pose proof (Hcl 6%nat) as H6. pose proof (Hcl 7%nat) as H7.
+  pose proof (Hcl 8%nat) as H8. pose proof (Hcl 9%nat) as H9. pose proof (Hcl 10%nat) as H10. pose proof (Hcl 11%nat) as H11.
+  pose proof (Hcl 12%nat) as H12. pose proof (Hcl 13%nat) as H13. pose proof (Hcl 14%nat) as H14. pose proof (Hcl 15%nat) as H15.
+  pose proof (Hcl 16%nat) as H16. pose proof (Hcl 17%nat) as H17.
+  cbn [nth] in H0, H1, H2, H3, H4, H5, H6, H7, H8, H9, H10, H11, H12, H13, H14, H15, H16, H17.
+  unfold rfc_cl_order. cbn [fold_right].
+  repeat match goal with |- context [N.to_nat ?k] =>
+    let v := eval cbv in (N.to_nat k) in change (N.to_nat k) with v end.
+  cbn [nth]. rewrite !Hfg by assumption. lia.
+Qed.
+
+Lemma term_w32u c : c <= 5 -> (if c =? 0 then 0 else 2 ^ (15 - c)) = 1024 * w32u c.
+Proof.
+  intros H. assert (E : c = 0 \/ c = 1 \/ c = 2 \/ c = 3 \/ c = 4 \/ c = 5) by lia.
+  destruct E as [->|[->|[->|[->|[->| ->]]]]]; reflexivity.
+Qed.
+
+Lemma kraft_wsum cl : length cl = 18%nat -> (forall i, nth i cl 0 <= 5) -> kraft cl = 1024 * wsum32 cl rfc_cl_order.
+Proof.
+  intros Hl Hcl. unfold wsum32.
+  rewrite <- (sum18 w32u (fun c => if c =? 0 then 0 else 2 ^ (15 - c)) cl Hl Hcl term_w32u).
+  unfold kraft, MAX_BITS. clear. induction cl as [|c cl IH]; [reflexivity|]. cbn [fold_right]. rewrite IH.
+  destruct (c =? 0); reflexivity.
+Qed.
+
+Lemma read_clcl_zero l nz acc bs : read_clcl l 0 nz acc bs = Some (acc, nz, 0, bs).
+Proof. destruct l; reflexivity. Qed.
+
+Lemma last_snoc (l : list N) x : last (l ++ [x]) 0 = x.
+Proof. induction l as [|a l IH]; [reflexivity|]. cbn [app]. destruct (l ++ [x]) eqn:E; [destruct l; discriminate|]. exact IH. Qed.
+
+(* reading back the code length code lengths *)
+Lemma read_cl_part cl (skip cts : nat) rest :
+  length cl = 18%nat -> (forall i, nth i cl 0 <= 5) ->
+  (skip <= 3)%nat -> (cts <= 18)%nat ->
+  (forall k, (k < skip)%nat -> nth (N.to_nat (ord k)) cl 0 = 0) ->
+  (forall k, (cts <= k < 18)%nat -> nth (N.to_nat (ord k)) cl 0 = 0) ->
+  ((wsum32 cl rfc_cl_order = 32 /\ (cts = 0%nat \/ nth (N.to_nat (ord (cts - 1))) cl 0 <> 0)) \/
+   (wsum32 cl rfc_cl_order = 16 /\ cts = 18%nat /\ forall i, nth i cl 0 = 0 \/ nth i cl 0 = 1)) ->
+  exists nz space,
+    read_clcl (skipn skip rfc_cl_order) 32 0 (repeat 0 18) (enc_order cl (seg skip cts) ++ rest) = Some (cl, nz, space, rest) /\
+    ((wsum32 cl rfc_cl_order = 32 /\ space = 0 /\ 2 <= nz) \/ (wsum32 cl rfc_cl_order = 16 /\ space = 16 /\ nz = 1)).
+Proof.
+  intros Hl Hcl Hs3 Hc18 Hz1 Hz2 HS.
+  assert (Hz1' : wsum32 cl (seg 0 skip) = 0).
+  { apply wsum32_zero. intros o Ho. rewrite seg_map in Ho by lia. apply in_map_iff in Ho. destruct Ho as [k [<- Hk]].
+    apply in_seq in Hk. apply Hz1. lia. }
+  assert (Hz2' : wsum32 cl (seg cts 18) = 0).
+  { apply wsum32_zero. intros o Ho. rewrite seg_map in Ho by lia. apply in_map_iff in Ho. destruct Ho as [k [<- Hk]].
+    apply in_seq in Hk. apply Hz2. lia. }
+  assert (Hsc : (skip <= cts)%nat).
+  { destruct HS as [[HS [->|Hlast]]|[_ [-> _]]]; [| |lia].
+    - exfalso. rewrite <- seg_full in HS. rewrite Hz2' in HS. discriminate.
+    - destruct (Nat.le_gt_cases skip cts) as [|Hgt]; [assumption|]. exfalso.
+      destruct (Nat.eq_dec cts 0) as [->|Hc0].
+      + rewrite <- seg_full in HS. rewrite Hz2' in HS. discriminate.
+      + apply Hlast. apply Hz1. lia. }
+  set (S := wsum32 cl (seg skip cts)).
+  assert (HSeq : wsum32 cl rfc_cl_order = S).
+  { rewrite <- seg_full. rewrite (seg_app 0 skip 18), (seg_app skip cts 18) by lia.
+    rewrite !wsum32_app, Hz1', Hz2'. unfold S. lia. }
+  assert (Hok : ok_space cl (seg skip cts) 32).
+  { apply ok_space_intro; [exact Hcl| |].
+    - fold S. rewrite <- HSeq. destruct HS as [[-> _]|[-> _]]; lia.
+    - fold S. rewrite <- HSeq. destruct HS as [[HS [->|Hlast]]|[-> _]]; [| |left; lia].
+      + exfalso. rewrite <- seg_full in HS. rewrite Hz2' in HS. discriminate.
+      + right. destruct (Nat.eq_dec cts 0) as [->|Hc0].
+        * exfalso. rewrite <- seg_full in HS. rewrite Hz2' in HS. discriminate.
+        * assert (Hsk1 : (skip <= cts - 1)%nat).
+          { destruct (Nat.le_gt_cases skip (cts - 1)) as [|Hgt]; [assumption|]. exfalso. apply Hlast. apply Hz1. lia. }
+          replace cts with (Datatypes.S (cts - 1)) at 1 by lia. rewrite seg_snoc by lia. rewrite last_snoc. exact Hlast. }
+  rewrite (seg_split skip cts Hsc).
+  rewrite (read_clcl_enc cl Hcl _ _ _ _ _ _ Hok). fold S. rewrite N.add_0_l.
+  assert (Hfill : fill cl (seg skip cts) (repeat 0 18) = cl).
+  { apply list_ext; [|intros p Hp].
+    - assert (Hfl : forall order acc, length (fill cl order acc) = length acc).
+      { induction order as [|o t IH]; intros acc; [reflexivity|]. cbn [fill].
+        destruct (nth (N.to_nat o) cl 0 =? 0); rewrite IH; [reflexivity|apply set_nth_length]. }
+      rewrite Hfl, Hl. reflexivity.
+    - assert (Hfl : length (fill cl (seg skip cts) (repeat 0 18)) = 18%nat).
+      { assert (Hfl : forall order acc, length (fill cl order acc) = length acc).
+        { induction order as [|o t IH]; intros acc; [reflexivity|]. cbn [fill].
+          destruct (nth (N.to_nat o) cl 0 =? 0); rewrite IH; [reflexivity|apply set_nth_length]. }
+        rewrite Hfl. reflexivity. }
+      rewrite Hfl in Hp.
+      rewrite fill_nth.
+      + destruct (ord_pos p Hp) as [Eo Hk]. set (k := pos_of p) in *.
+        destruct (existsb (fun o => (N.to_nat o =? p)%nat) (seg skip cts)) eqn:Ex.
+        * cbn [andb]. destruct (N.eqb_spec (nth p cl 0) 0) as [E|E]; cbn [negb]; [|reflexivity].
+          rewrite nth_repeat. symmetry. exact E.
+        * cbn [andb]. rewrite nth_repeat. symmetry.
+          assert (Hnin : ~ (skip <= k < cts)%nat).
+          { intros Hin. apply (in_seg skip cts k Hc18 Hk) in Hin.
+            assert (existsb (fun o => (N.to_nat o =? p)%nat) (seg skip cts) = true); [|congruence].
+            apply existsb_exists. exists (ord k). split; [exact Hin|]. apply Nat.eqb_eq. rewrite Eo. lia. }
+          replace p with (N.to_nat (ord k)) by (rewrite Eo; lia).
+          destruct (Nat.lt_ge_cases k skip); [apply Hz1; assumption|apply Hz2; lia].
+      + apply seg_NoDup. exact Hc18.
+      + intros o Ho. rewrite repeat_length. rewrite seg_map in Ho by exact Hc18. apply in_map_iff in Ho.
+        destruct Ho as [k [<- Hk]]. apply in_seq in Hk. pose proof (ord_lt k ltac:(lia)). lia. }
+  rewrite Hfill.
+  destruct HS as [[HS32 _]|[HS16 [Ec18 H01]]].
+  - exists (nzcount cl (seg skip cts)), 0. rewrite <- HSeq, HS32. change (32 - 32) with 0. rewrite read_clcl_zero.
+    split; [reflexivity|]. left. split; [reflexivity|]. split; [reflexivity|].
+    pose proof (wsum32_le_nz cl (seg skip cts)) as Hle. fold S in Hle. rewrite <- HSeq, HS32 in Hle. lia.
+  - exists (nzcount cl (seg skip cts)), 16. rewrite <- HSeq, HS16. change (32 - 16) with 16. subst cts.
+    change (skipn 18 rfc_cl_order) with (@nil N). cbn [read_clcl]. split; [reflexivity|]. right. split; [reflexivity|]. split; [reflexivity|].
+    pose proof (wsum32_01 cl (seg skip 18) ltac:(intros o _; apply H01)) as He. fold S in He. rewrite <- HSeq, HS16 in He. lia.
+Qed.
+
+(* ------------------------------------------------------------------ more about runs of the sequence reader *)
+Lemma cl_step_mono asz asz' st s e st' : asz <= asz' -> cl_step asz st s e = Some st' -> cl_step asz' st s e = Some st'.
+Proof.
+  intros Hle H. unfold cl_step in *. destruct (s <? 16).
+  - destruct (N.ltb_spec (cl_n st) asz); [|discriminate]. destruct (N.ltb_spec (cl_n st) asz'); [exact H|lia].
+  - destruct (s =? 16).
+    + destruct (4 <=? e); [discriminate|].
+      match type of H with (if asz <? ?x then _ else _) = _ =>
+        destruct (N.ltb_spec asz x); [discriminate|]; destruct (N.ltb_spec asz' x); [lia|exact H] end.
+    + destruct (s =? 17); [|discriminate]. destruct (8 <=? e); [discriminate|].
+      match type of H with (if asz <? ?x then _ else _) = _ =>
+        destruct (N.ltb_spec asz x); [discriminate|]; destruct (N.ltb_spec asz' x); [lia|exact H] end.
+Qed.
+
+Lemma cl_run_mono asz asz' : asz <= asz' -> forall t st st', cl_run asz st t = Some st' -> cl_run asz' st t = Some st'.
+Proof.
+  intros Hle. induction t as [|[s e] t IH]; intros st st' H; [exact H|]. cbn [cl_run] in *.
+  destruct (cl_step asz st s e) as [st1|] eqn:E; [|discriminate]. rewrite (cl_step_mono _ _ _ _ _ _ Hle E). apply IH. exact H.
+Qed.
+
+Lemma cl_run_extras asz : forall t st st', cl_run asz st t = Some st' ->
+  forall s e, In (s, e) t -> s < 18 /\ (s = 16 -> e < 4) /\ (s = 17 -> e < 8).
+Proof.
+  induction t as [|[s0 e0] t IH]; intros st st' H s e Hin; [destruct Hin|]. cbn [cl_run] in H.
+  destruct (cl_step asz st s0 e0) as [st1|] eqn:E; [|discriminate]. destruct Hin as [Heq|Hin]; [|apply (IH st1 st' H s e Hin)].
+  inversion Heq; subst. unfold cl_step in E. destruct (N.ltb_spec s 16).
+  - split; [lia|]. split; intros; lia.
+  - destruct (N.eqb_spec s 16) as [->|N16].
+    + destruct (N.leb_spec 4 e); [discriminate|]. split; [lia|]. split; [intros; assumption|intros; lia].
+    + destruct (N.eqb_spec s 17) as [->|N17]; [|discriminate].
+      destruct (N.leb_spec 8 e); [discriminate|]. split; [lia|]. split; [intros; lia|intros; assumption].
+Qed.
+
+Lemma cl_run_length asz : forall t st st', good st -> cl_run asz st t = Some st' ->
+  cl_n st + N.of_nat (length t) <= cl_n st'.
+Proof.
+  induction t as [|[s e] t IH]; intros st st' G H; [inversion H; cbn; lia|]. cbn [cl_run] in H.
+  destruct (cl_step asz st s e) as [st1|] eqn:E; [|discriminate].
+  destruct (cl_step_good _ _ _ _ _ G E) as [G1 [added [Hne Hrev]]].
+  specialize (IH st1 st' G1 H). destruct G as [_ [Gn _]]. destruct G1 as [_ [G1n _]].
+  rewrite Hrev, app_length in G1n. destruct added; [contradiction|]. cbn [length] in *. lia.
+Qed.
+
+Lemma kraft_rev l : kraft (rev l) = kraft l.
+Proof. induction l as [|x l IH]; [reflexivity|]. cbn [rev]. rewrite kraft_app, IH, !kraft_cons. cbn [kraft fold_right]. lia. Qed.
+
+Lemma strip_cases d : strip_trailing_zeros d = [] \/ exists x v, strip_trailing_zeros d = x ++ [v] /\ v <> 0.
+Proof.
+  induction d as [|a d IH]; [left; reflexivity|]. cbn [strip_trailing_zeros].
+  destruct IH as [E|[x [v [E Hv]]]].
+  - rewrite E. destruct (N.eqb_spec a 0); [left; reflexivity|right; exists [], a; auto].
+  - rewrite E. right. destruct (x ++ [v]) eqn:E2; [destruct x; discriminate|]. exists (a :: x), v. rewrite <- E2. auto.
+Qed.
+
+Lemma strip_decomp d : exists k, d = strip_trailing_zeros d ++ repeat 0 k.
+Proof.
+  induction d as [|a d IH]; [exists 0%nat; reflexivity|]. destruct IH as [k Hk]. cbn [strip_trailing_zeros].
+  destruct (strip_trailing_zeros d) eqn:E.
+  - destruct (N.eqb_spec a 0) as [->|Ha].
+    + exists (S k). cbn [app repeat]. f_equal. exact Hk.
+    + exists k. cbn [app]. f_equal. exact Hk.
+  - exists k. cbn [app]. f_equal. exact Hk.
+Qed.
+
+Lemma kraft_strip d : kraft (strip_trailing_zeros d) = kraft d.
+Proof.
+  destruct (strip_decomp d) as [k Hk]. rewrite Hk at 2. rewrite kraft_app, kraft_repeat. cbn [N.eqb]. lia.
+Qed.
+
+Lemma prefix_cond asz t st_f : cl_run asz cl_init t = Some st_f -> cl_space st_f = 32768 -> cl_n st_f <= asz ->
+  (exists x l, cl_rev st_f = x :: l /\ x <> 0 /\ x <= 15) ->
+  forall t1 t2 st1, t = t1 ++ t2 -> t2 <> [] -> cl_run asz cl_init t1 = Some st1 -> cl_n st1 < asz /\ cl_space st1 < 32768.
+Proof.
+  intros Hrun Hsp Hn [x [l [Hrev [Hx Hx15]]]] t1 t2 st1 -> Hne H1.
+  rewrite cl_run_app, H1 in Hrun.
+  destruct (cl_run_good asz t1 cl_init st1 good_init H1) as [G1 _].
+  destruct (cl_run_good asz t2 st1 st_f G1 Hrun) as [Gf [added [Hadd Hnz]]].
+  specialize (Hnz Hne). destruct added as [|y added]; [contradiction|].
+  rewrite Hrev in Hadd. cbn [app] in Hadd. inversion Hadd; subst y.
+  destruct G1 as [G1s [G1n _]]. destruct Gf as [Gfs [Gfn _]].
+  rewrite Hrev in Gfs, Gfn. rewrite kraft_cons in Gfs.
+  assert (Hl : l = added ++ cl_rev st1) by congruence. rewrite Hl, kraft_app in Gfs. rewrite Hl in Gfn. cbn [length] in Gfn. rewrite app_length in Gfn.
+  destruct (N.eqb_spec x 0); [contradiction|].
+  assert (Hp : 2 ^ (15 - x) <> 0) by (apply N.pow_nonzero; discriminate).
+  remember (2 ^ (15 - x)) as w. split; lia.
+Qed.
+
+Lemma first_nonzero_single code : code < 18 -> first_nonzero (upd (repeat 0 18) (N.to_nat code) 1) 0 = Some code.
+Proof.
+  intros H. assert (E : forallb (fun c => match first_nonzero (upd (repeat 0 18) (N.to_nat c) 1) 0 with Some x => x =? c | None => false end)
+                                (range_nat 0 18) = true) by (vm_compute; reflexivity).
+  rewrite forallb_forall in E. specialize (E code ltac:(apply range_nat_In; lia)).
+  destruct (first_nonzero _ 0); [apply N.eqb_eq in E; subst; reflexivity|discriminate].
+Qed.
+
+Lemma strip_pad d asz : N.of_nat (length d) <= asz ->
+  strip_trailing_zeros d ++ zeros (asz - N.of_nat (length (strip_trailing_zeros d))) = d ++ zeros (asz - N.of_nat (length d)).
+Proof.
+  intros H. destruct (strip_decomp d) as [k Hk]. remember (strip_trailing_zeros d) as s eqn:Es. clear Es. subst d.
+  rewrite app_length, repeat_length in *. rewrite <- app_assoc. f_equal.
+  unfold zeros. rewrite <- repeat_app. f_equal. lia.
+Qed.
+
+(* ------------------------------------------------------------------ C17_store, complex form *)
+Theorem store_complex depths asz pool out out' pool' rr r :
+  wf_depths depths -> kraft depths = 32768 ->
+  N.of_nat (length depths) <= 704 -> N.of_nat (length depths) <= asz ->
+  store_huffman_tree depths (N.of_nat (length depths)) pool out = Done (out', pool', rr) -> rr <= 27 ->
+  exists bs, out' = out ++ bs /\
+    rfc_read_prefix_code asz (bs ++ r) =
+    Some ({| pc_lengths := depths ++ zeros (asz - N.of_nat (length depths)); pc_single := None |}, r).
+Proof.
+  intros Hwf Hk H704 Hasz Hrun Hrr. unfold store_huffman_tree in Hrun.
+  set (len := N.of_nat (length depths)) in *.
+  (* the run-length coded lengths *)
+  inv_bind Hrun. rename a into t.
+  destruct (rle_expand depths 704 Hwf) as [t' [Et' Hexp]];
+    [eapply N.le_lt_trans; [exact H704|]; apply (N.pow_lt_mono_r 2 10 63); lia|exact H704|].
+  fold len in Et', Hexp. rewrite E in Et'. inversion Et'. subst t'. clear Et'.
+  unfold rfc_expand in Hexp. destruct (cl_run len cl_init t) as [st_f|] eqn:Erun0; [|discriminate].
+  inversion Hexp as [Hrevf]. clear Hexp.
+  assert (Erun : cl_run asz cl_init t = Some st_f) by (apply (cl_run_mono len asz Hasz); exact Erun0).
+  destruct (cl_run_good asz t cl_init st_f good_init Erun) as [[Gs [Gn Gp]] _].
+  assert (Hrevf' : cl_rev st_f = rev (strip_trailing_zeros depths)) by (rewrite <- Hrevf, rev_involutive; reflexivity).
+  assert (Hspace : cl_space st_f = 32768) by (rewrite Gs, Hrevf', kraft_rev, kraft_strip; exact Hk).
+  assert (Hnf : cl_n st_f = N.of_nat (length (strip_trailing_zeros depths))) by (rewrite Gn, Hrevf', rev_length; reflexivity).
+  assert (Hstriplen : N.of_nat (length (strip_trailing_zeros depths)) <= len).
+  { destruct (strip_decomp depths) as [k Hd]. unfold len. rewrite Hd at 2. rewrite app_length. lia. }
+  assert (Hhead : exists x l, cl_rev st_f = x :: l /\ x <> 0 /\ x <= 15).
+  { destruct (strip_cases depths) as [E0|[x [v [Ex Hv]]]].
+    - exfalso. rewrite <- kraft_strip, E0 in Hk. discriminate.
+    - rewrite Hrevf', Ex, rev_app_distr. cbn [rev app]. exists v, (rev x). split; [reflexivity|]. split; [exact Hv|].
+      apply Hwf. destruct (strip_decomp depths) as [k Hd]. rewrite Hd, Ex. apply in_or_app. left. apply in_or_app. right. left. reflexivity. }
+  assert (Htlen : N.of_nat (length t) <= 704).
+  { pose proof (cl_run_length asz t cl_init st_f good_init Erun) as Hlen. cbn [cl_init cl_n] in Hlen. lia. }
+  (* histogram and the code length code *)
+  inv_bind Hrun. rename a into hist.
+  destruct (hist_spec t hist ltac:(change (2 ^ 32) with 4294967296; lia) E0) as [Hhl [Hhocc Hh18]].
+  destruct (count_codes hist 0 0 0) as [nc code] eqn:Ecc.
+  inv_bind Hrun. destruct a as [[cl pool1] rr1].
+  inv_bind Hrun. rename a into sym.
+  inv_bind Hrun. rename a into out1.
+  inv_bind Hrun. rename a into cl'.
+  inv_bind Hrun. rename a into out2. inversion Hrun. subst out' pool' rr. clear Hrun.
+  assert (Hhb : forall s, nth s hist 0 <= 704).
+  { intros s. destruct (Nat.lt_ge_cases s 18) as [Hs|Hs]; [|rewrite nth_overflow by lia; lia].
+    rewrite <- (Nat2N.id s), Hhocc. pose proof (occ_le (map fst t) (N.of_nat s)) as Ho. rewrite map_length in Ho. lia. }
+  assert (Hnc : nc <> 0).
+  { destruct (count_codes_spec hist 0 nc code Ecc) as [[_ Hz]|[[-> _]|[-> _]]]; try discriminate. exfalso.
+    destruct t as [|[s e] t].
+    - cbn in Erun. inversion Erun. subst st_f. cbn in Hspace. discriminate.
+    - assert (Hs : nth (N.to_nat s) hist 0 <> 0) by (rewrite Hhocc; apply occ_pos; left; reflexivity).
+      assert (Hs18 : s < 18) by (apply Hh18; left; reflexivity).
+      assert (Hin : In (N.to_nat s) (supp hist 18)) by (apply supp_spec; split; [lia|exact Hs]).
+      pose proof (supp_length hist 18 ltac:(lia)) as Hsl. rewrite firstn_all2, Hz in Hsl by lia.
+      destruct (supp hist 18); [destruct Hin|discriminate]. }
+  destruct (cl_tree_facts hist pool cl pool1 rr1 nc code Hhl Hhb Ecc Hnc E1 Hrr) as [Hcl18 [Hcl5 [Hclsupp Hcases]]].
+  (* canonical symbols of the code length code *)
+  assert (Hwfcl : wf_depths cl).
+  { intros l Hl. apply (In_nth _ _ 0) in Hl. destruct Hl as [k [_ <-]]. pose proof (Hcl5 k). unfold MAX_BITS. lia. }
+  assert (Hkcl : kraft cl <= 32768).
+  { destruct Hcases as [[_ ->]|[_ [Hc18 [-> _]]]]; [lia|].
+    change (repeat 0 18) with (zeros 18). rewrite <- set_nth_upd, kraft_set_nth, kraft_zeros;
+      [unfold term; cbn; lia|rewrite zeros_length; lia|apply nth_zeros|discriminate]. }
+  destruct (canonical_all cl (repeat 0 18) Hwfcl Hkcl ltac:(rewrite Hcl18; reflexivity)) as [[sym' [Esym [Hsyml Hsymp]]] [_ Hdec]].
+  rewrite Hcl18 in Esym. change (N.of_nat 18) with 18 in Esym. rewrite E2 in Esym. inversion Esym. subst sym'. clear Esym.
+  destruct (store_cl_lengths nc cl out out1 Hcl18 Hcl5 E3) as [skip [cts [Hs [Hc18 [-> [Hz1 [Hs0 [Hs2 [HA HB]]]]]]]]].
+  apply store_seq in E5. subst out2.
+  eexists. split; [rewrite <- !app_assoc; reflexivity|].
+  unfold rfc_read_prefix_code. rewrite <- !app_assoc.
+  rewrite read_bits_written by (destruct Hs as [->|[->| ->]]; cbn; lia).
+  assert (Hs1 : (N.of_nat skip =? 1) = false) by (destruct Hs as [->|[->| ->]]; reflexivity). rewrite Hs1.
+  unfold rfc_read_complex. rewrite Nat2N.id.
+  assert (Hs3 : (skip <= 3)%nat) by lia.
+  assert (Hstop : forall fuel single bs, read_cl_sequence fuel asz cl single st_f bs = Some (st_f, bs)).
+  { intros fuel single bs. destruct fuel; cbn [read_cl_sequence]; rewrite Hspace; change (32768 <? 32768) with false;
+      rewrite andb_false_r; reflexivity. }
+  assert (Hfuel : (length t < S (N.to_nat asz))%nat).
+  { pose proof (cl_run_length asz t cl_init st_f good_init Erun) as Hlen. cbn [cl_init cl_n] in Hlen. lia. }
+  assert (Hpre := prefix_cond asz t st_f Erun Hspace ltac:(lia) Hhead).
+  assert (Hex := cl_run_extras asz t cl_init st_f Erun).
+  assert (Hfinal : Some ({| pc_lengths := rev (cl_rev st_f) ++ zeros (asz - cl_n st_f); pc_single := None |}, r)
+                   = Some ({| pc_lengths := depths ++ zeros (asz - len); pc_single := None |}, r)).
+  { rewrite Hrevf, Hnf, strip_pad by exact Hasz. reflexivity. }
+  destruct Hcases as [[-> Hkr]|[-> [Hc18' [Ecl [Hcode Hothers]]]]].
+  - (* at least two code length symbols in use: a canonical code *)
+    assert (HS : wsum32 cl rfc_cl_order = 32).
+    { pose proof (kraft_wsum cl Hcl18 Hcl5) as Hkw. rewrite Hkr in Hkw. lia. }
+    destruct (HA eq_refl) as [Hz2 Hlast].
+    destruct (read_cl_part cl skip cts (enc_seq (sym_bits cl' sym) t ++ r) Hcl18 Hcl5 Hs3 Hc18 Hz1 Hz2
+                ltac:(left; split; [exact HS|exact Hlast])) as [nz [space [Ercl [[_ [-> Hnz]]|[HS16 _]]]]];
+      [|rewrite HS in HS16; discriminate].
+    rewrite Ercl. destruct (N.eqb_spec nz 1) as [|_]; [lia|]. cbn [orb negb N.eqb].
+    change (2 =? 1) with false in E4. inversion E4. subst cl'.
+    rewrite (seq_read asz cl None (sym_bits cl sym) (fun s => In s (map fst t))) with (st_f := st_f).
+    + rewrite Hstop, Hspace. change (32768 =? 32768) with true. exact Hfinal.
+    + intros s r0 Hs'. unfold read_cl_symbol, sym_bits.
+      assert (Hs18 : s < 18) by (apply Hh18; exact Hs').
+      assert (Hnzs : nth (N.to_nat s) cl 0 <> 0).
+      { apply Hclsupp; [lia|]. rewrite Hhocc. apply occ_pos. exact Hs'. }
+      destruct (Hsymp (N.to_nat s) ltac:(lia) Hnzs) as [_ Hbits]. rewrite Hbits.
+      rewrite (Hdec (N.to_nat s) r0 ltac:(lia) Hnzs), N2Nat.id. reflexivity.
+    + intros s e Hin. destruct (Hex s e Hin) as [_ [H16 H17]]. split; [|split; assumption].
+      apply in_map_iff. exists (s, e). auto.
+    + exact Erun.
+    + exact Hpre.
+    + exact Hfuel.
+  - (* a single code length symbol in use: it is coded with zero bits *)
+    assert (Hcl01 : forall i, nth i cl 0 = 0 \/ nth i cl 0 = 1).
+    { intros i. rewrite Ecl. destruct (Nat.eq_dec i (N.to_nat code)) as [->|Hne].
+      - right. apply upd_nth_same. cbn. lia.
+      - left. rewrite upd_nth_other by lia.
+        destruct (Nat.lt_ge_cases i 18); [apply nth_repeat|apply nth_overflow; cbn; lia]. }
+    assert (HS : wsum32 cl rfc_cl_order = 16).
+    { pose proof (kraft_wsum cl Hcl18 Hcl5) as Hkw.
+      assert (Hk16 : kraft cl = 16384).
+      { rewrite Ecl. change (repeat 0 18) with (zeros 18). rewrite <- set_nth_upd, kraft_set_nth, kraft_zeros;
+          [reflexivity|rewrite zeros_length; lia|apply nth_zeros|discriminate]. }
+      rewrite Hk16 in Hkw. lia. }
+    assert (Hcts : cts = 18%nat) by (apply HB; reflexivity).
+    assert (Hz2 : forall k, (cts <= k < 18)%nat -> nth (N.to_nat (ord k)) cl 0 = 0) by (intros k Hkk; lia).
+    destruct (read_cl_part cl skip cts (enc_seq (sym_bits cl' sym) t ++ r) Hcl18 Hcl5 Hs3 Hc18 Hz1 Hz2
+                ltac:(right; split; [exact HS|split; [exact Hcts|exact Hcl01]])) as [nz [space [Ercl [[HS32 _]|[_ [-> ->]]]]]];
+      [rewrite HS in HS32; discriminate|].
+    rewrite Ercl. change (1 =? 1) with true. cbn [orb negb].
+    rewrite Ecl, first_nonzero_single by exact Hc18'. rewrite <- Ecl.
+    apply setA_done in E4. destruct E4 as [_ ->].
+    rewrite (seq_read asz cl (Some code) (sym_bits (upd cl (N.to_nat code) 0) sym) (fun s => s = code)) with (st_f := st_f).
+    + rewrite Hstop, Hspace. change (32768 =? 32768) with true. exact Hfinal.
+    + intros s r0 ->. unfold read_cl_symbol, sym_bits. rewrite upd_nth_same by lia. reflexivity.
+    + intros s e Hin. destruct (Hex s e Hin) as [Hs18 [H16 H17]]. split; [|split; assumption].
+      assert (Hocc : nth (N.to_nat s) hist 0 <> 0).
+      { rewrite Hhocc. apply occ_pos. apply in_map_iff. exists (s, e). auto. }
+      destruct (N.eq_dec s code) as [|Hne]; [assumption|]. exfalso. apply Hocc. apply Hothers; lia.
+    + exact Erun.
+    + exact Hpre.
+    + exact Hfuel.
 Qed.
